@@ -506,6 +506,17 @@ func c03Guarded(c *Check, id string, m *msgFields) {
 				c.Report(true, id, "GUARDED-BY/constructor", fn, a.Ins.Pos(), k, "constructor: the object is not shared yet")
 				continue
 			}
+			if st, isSt := a.Ins.(*ssa.Store); isSt {
+				// a composite literal built in this very function: that object is not shared yet either
+				if _, base := FieldOf(st.Addr); base != nil {
+					if al, isAl := base.(*ssa.Alloc); isAl && al.Parent() == a.Ins.Parent() {
+						if _, fresh := firstOrigin(st.Val).(*ssa.MakeChan); fresh || f == m.State {
+							c.Report(true, id, "GUARDED-BY/constructor", fn, a.Ins.Pos(), k, "field of a message value created in this function: the object is not shared yet")
+							continue
+						}
+					}
+				}
+			}
 			nacc++
 			if a.Write {
 				c.Report(writers[fn], id, "WHO-MAY-WRITE", fn, a.Ins.Pos(), k, "settlement fields are written only by NewMessage, Ack and Nack")
@@ -520,6 +531,16 @@ func c03Guarded(c *Check, id string, m *msgFields) {
 		}
 	}
 	c.Floor(id, "accesses to the settlement fields outside the constructor", nacc, 8)
+	// a channel field is (re)assigned only where it was nil: for constructor-built messages the accessors' lock-free
+	// read never meets a write
+	for _, fn := range []*ssa.Function{m.Ack, m.Nack} {
+		for _, f := range []*types.Var{m.AckCh, m.NackCh} {
+			wasNil, _ := NilEdges(fn, func(v ssa.Value) bool { return AllOrigins(v, IsFieldLoad(f)) })
+			for _, st := range FieldStores(fn, f) {
+				c.Report(len(wasNil) > 0 && GuardedBy(fn, st, wasNil), id, "CHANNEL-ASSIGNED-ONLY-IF-NIL", fn, st.Pos(), "store to the "+roleOf(m, f), "the channel field is written only on the edge where it was nil (zero-value message): a message built by the constructor keeps its channel, so Acked()/Nacked() may read the field without the mutex")
+			}
+		}
+	}
 	// the accessors hand out the message's own channel, whatever its state
 	for _, pair := range []struct {
 		fn *ssa.Function
